@@ -1,6 +1,7 @@
 import Pose.Wire
 import Pose.Driver.Lie
 import Pose.Model.Convert
+import Pose.Model.ConvertCall
 /-!
 # Driver ops for C11 (matrix / Euler conversions)
 
@@ -53,7 +54,44 @@ def toRows (cols : Nat) (rows : Nat) (xs : List B) : DMat B :=
 
 def matIn (lay : Layout) (rows cols : Nat) (xs : List B) : MatIn B := MatIn.ofDMat lay (toRows cols rows xs)
 
+def optNum (s : String) : Except String (Option B) :=
+  if s == "-" then .ok none else (num s).map some
+
+/-- `c11.call <from_matrix|direct> <SO3|SE3|Sim3|RxSO3|other> <rank> <rows> <cols> <n> <check 1|0|-> <rtol|-> <atol|-> nums…`
+the call glue: shape validation, dispatch, defaults (`-` = argument not given) -/
+def callOp : Handler := fun ts => do
+  match ts with
+  | ent :: ty :: rank :: rows :: cols :: n :: chk :: rt :: at_ :: rest =>
+    let rank ← nat rank; let rows ← nat rows; let cols ← nat cols; let n ← nat n
+    let lt : Option GTy := match ty with
+      | "SO3" => some .SO3 | "SE3" => some .SE3 | "Sim3" => some .Sim3 | "RxSO3" => some .RxSO3 | _ => none
+    let e ← match ent, lt with
+      | "from_matrix", l => pure (Entry.fromMatrix l)
+      | "direct", some t => pure (Entry.direct t)
+      | _, _ => throw "bad-entry"
+    let check : Option Bool := if chk == "-" then none else some (chk == "1")
+    let rtol ← optNum rt
+    let atol ← optNum at_
+    let data ← nums rest
+    if data.length != n * rows * cols then throw s!"arity:{data.length}" else
+    let Ms := (chunks (rows * cols) n data).map (toRows cols rows)
+    match convCall detB e rank rows cols ⟨check, rtol, atol⟩ Ms with
+    | .ok out => return fmt out.flatten
+    | .error err => throw err.name
+  | _ => throw "arity"
+
 def opsC11 : List (String × Handler) := [
+  ("c11.call", callOp),
+  ("c11.eulercall", fun ts => do
+      match ts with
+      | e :: rest =>
+        let eps ← optNum e
+        let xs ← nums rest
+        if xs.length != 4 then throw "arity" else
+        let p := qt xs
+        let ee := eps.getD defEulerEps
+        return fmt ((SO3eulerCall eps p).toList ++ [if eulerRegular ee p then BigF.ofInt 1 else BigF.ofInt 0, (eulerT p).t2])
+      | _ => throw "arity"),
   ("c11.from_matrix", fun ts => do
       match ts with
       | ty :: lay :: chk :: n :: rest =>
